@@ -236,3 +236,65 @@ impl Scenario for C17Encodings {
         Ok(())
     }
 }
+
+
+/// totality on byte strings that are not derived from a document: BOMs, NULs, surrogates, stray high bytes
+pub struct C17ArbitraryBytes;
+
+impl Scenario for C17ArbitraryBytes {
+    fn property(&self) -> &'static str {
+        "C17"
+    }
+    fn name(&self) -> &'static str {
+        "arbitrary_byte_strings"
+    }
+    fn run(&self, cx: &mut Cx) -> Result<(), Violation> {
+        let fs = SimFs::new("/work", cx.tape.draw_u64());
+        fs.install();
+        let n = *cx.tape.pick(&[0usize, 1, 2, 3, 4, 5, 7, 8, 16, 33, 100, 400]);
+        let mut bytes: Vec<u8> = Vec::new();
+        // a prefix that steers the detection cascade
+        let prefixes: [&[u8]; 10] = [b"", b"\xEF\xBB\xBF", b"\xFF\xFE", b"\xFE\xFF", b"\xFF\xFE\x00\x00", b"\x00\x00\xFE\xFF", b"A\x00", b"\x00A", b"A\x00\x00\x00", b"\x00\x00\x00A"];
+        let p: &[u8] = *cx.tape.pick(&prefixes);
+        bytes.extend_from_slice(p);
+        let alphabet: [&[u8]; 14] = [b"/begin ", b"/end ", b"A2ML", b"\"", b"/*", b"*/", b"//", b"\n", b"\x00", b"\xD8\x00", b"\x00\xDC", b"\xFF", b"\xC3\xA4", b"ASAP2_VERSION 1 71 "];
+        while bytes.len() < n {
+            match cx.tape.draw(3) {
+                0 => bytes.push(cx.tape.draw(256) as u8),
+                1 => {
+                    let a: &[u8] = *cx.tape.pick(&alphabet);
+                    bytes.extend_from_slice(a);
+                }
+                _ => {
+                    // an ASCII character in one of the wide encodings
+                    let ch = b' ' + cx.tape.draw(90) as u8;
+                    match cx.tape.draw(4) {
+                        0 => bytes.extend_from_slice(&[ch, 0]),
+                        1 => bytes.extend_from_slice(&[0, ch]),
+                        2 => bytes.extend_from_slice(&[ch, 0, 0, 0]),
+                        _ => bytes.extend_from_slice(&[0, 0, 0, ch]),
+                    }
+                }
+            }
+        }
+        if cx.tape.chance(1, 2) {
+            bytes.truncate(n);
+        }
+        fs.set_chunking(match cx.tape.draw(3) {
+            0 => Chunking::Whole,
+            1 => Chunking::OneByte,
+            _ => Chunking::Random(5),
+        });
+        fs.put("/work/bytes.a2l", &bytes);
+        let strict = cx.tape.chance(1, 2);
+        cx.event(&format!("{} bytes: {:02x?}", bytes.len(), &bytes[..bytes.len().min(64)]));
+        fs.begin_op(BTreeMap::new(), false);
+        let r1 = sut::load_path(cx, "E2", "/work/bytes.a2l", None, strict, bytes.len())?.is_ok();
+        fs.begin_op(BTreeMap::new(), false);
+        let r2 = sut::load_fragment_path(cx, "E2", "/work/bytes.a2l", None, bytes.len())?.is_ok();
+        cx.nontrivial = !bytes.is_empty();
+        cx.sig(&format!("bytes|len{}|{}|{r1}|{r2}", bytes.len() % 4, bytes.len().min(9)));
+        SimFs::uninstall();
+        Ok(())
+    }
+}
